@@ -2,6 +2,7 @@
 import PygModel.Bind
 import PygModel.Cache
 import PygModel.Wrap
+import PygModel.WrapHist
 
 namespace Pyg.BindDriver
 open Pyg
@@ -70,6 +71,13 @@ def cacheReplies (f : Call → Res Val) : CacheSt → List Call → List Val
     let (st1, r) := cacheCallH Call.hasArr f st c
     .tuple [resVal r, .cell (.int st1.evals.length)] :: cacheReplies f st1 cs
 
+/-- replies of a history through a stack: `(T reply executions-of-f-so-far)` per call -/
+def stackReplies (s : Sig) (chain : List (Cls × PDict)) : HSt → List Call → List Val
+  | _, [] => []
+  | st, c :: cs =>
+    let (st1, r) := evalH s recBody Call.hasArr chain st c
+    .tuple [resVal r, .cell (.int st1.evals.length)] :: stackReplies s chain st1 cs
+
 /-- `(deco <op> <args>)` -/
 def handle1 (op : String) (args : List Sexp) : Option String := do
   match op, args with
@@ -95,6 +103,16 @@ def handle1 (op : String) (args : List Sexp) : Option String := do
       let c ← callOf (← Val.ofSexp a) (← Val.ofSexp k)
       let fn := mkMany ds { chain := [], base := 0 }
       pure (reply (evalChain s recBody fn.chain c))
+  | "stackhist", [s, ds, cs] =>
+      let s ← sigOf (← Val.ofSexp s); let ds ← decosOf (← Val.ofSexp ds)
+      let fn := mkMany ds { chain := [], base := 0 }
+      match ← Val.ofSexp cs with
+      | .list cs =>
+          let cs ← cs.mapM fun
+            | .tuple [a, k] => callOf a k
+            | _ => Option.none
+          pure (reply (.ok (.list (stackReplies s fn.chain {} cs))))
+      | _ => Option.none
   | "mk", [ds] =>
       let ds ← decosOf (← Val.ofSexp ds)
       let fn := mkMany ds { chain := [], base := 0 }
